@@ -43,10 +43,17 @@ def worker(wid, q, outf, lock, seed_target):
             orig = open(fp).read()
             lines = orig.split("\n")
             line = lines[m["line"] - 1]
-            if line[m["col"]:m["col"] + len(m["old"])] != m["old"]:
+            if "new_lines" in m:
+                stale = line.strip()[:140] != m["text"]
+            else:
+                stale = line[m["col"]:m["col"] + len(m["old"])] != m["old"]
+            if stale:
                 res = dict(m, outcome="stale")
             else:
-                lines[m["line"] - 1] = line[:m["col"]] + m["new"] + line[m["col"] + len(m["old"]):]
+                if "new_lines" in m:
+                    lines[m["line"] - 1:m["end"]] = m["new_lines"]
+                else:
+                    lines[m["line"] - 1] = line[:m["col"]] + m["new"] + line[m["col"] + len(m["old"]):]
                 open(fp, "w").write("\n".join(lines))
                 t0 = time.time()
                 rc, out = sh(["cargo", "test", "--offline", "--no-fail-fast"], repo, 240, env)
